@@ -1,7 +1,7 @@
-(* C02 -- statements only; see DESIGN.md section 6 C02.  Theorems are added as the proofs land;
-   the witnesses below are evaluated in the kernel on the whole-parser model. *)
+(* C02 -- the nesting limit bounds tree depth and recursion for any input.  Statements only; proofs in
+   proofs/{BlockProofs,InlineProofs,CoreProofs}.v; see DESIGN.md section 6 C02. *)
 From Coq Require Import String.
-From MdIt Require Import Prims Tables Tree Render Core Dump Dispatch.
+From MdIt Require Import Prims Tables Tree Render Block Inline Core Dump Dispatch BlockProofs InlineProofs CoreProofs.
 Local Open Scope string_scope.
 Local Open Scope list_scope.
 Local Open Scope N_scope.
@@ -24,3 +24,43 @@ Example C02_witness_brackets :
   match depth_with 3 (flat_map (fun _ => bs "![") (seq 0 30) ++ bs "a" ++ flat_map (fun _ => bs "](u)") (seq 0 30)) with
   | Some d => Nat.leb d 13 = true | None => False end.
 Proof. vm_compute. reflexivity. Qed.
+
+(* FULL STATEMENT: depth_of (d_root d) and the recursion needed to parse, walk, render and drop the
+   tree are bounded by a constant multiple of max_nesting, for every input.
+
+   PROVED (this file): the recursion needed to PARSE.  In the model every nested call of the block
+   tokenizer, the inline tokenizer and skip_token consumes one unit of fuel, and running out is the
+   distinguished outcome OutOfFuel; the theorems say that outcome is impossible once the budget exceeds
+   the nesting limit by 1 (blocks) or 2 (inlines) -- whatever the input and the rule chain.
+   NOT PROVED: the bound on the depth of the produced tree (and with it walk/render/drop); decided on
+   every run by the depth oracle (tree depth, emphasis wrappers not counted, <= 3*limit+4), the measured
+   recursion gauge of the implementation, and the correspondence.  Emphasis nesting is NOT bounded by
+   the limit in the implementation: open known finding F3. *)
+
+(* block tokenizer at any level: budget maxnest + 1 - level suffices *)
+Theorem C02_block_recursion_bounded : forall cfg fuel st,
+  (N.to_nat (bc_maxnest cfg + 1 - b_level st) <= fuel)%nat -> (b_level st <= bc_maxnest cfg) ->
+  btokenize fuel cfg st <> inl OutOfFuel.
+Proof. exact block_recursion_bounded. Qed.
+
+(* inline tokenizer / skip_token at any level: budgets maxnest + 2 - level and maxnest + 1 - level *)
+Theorem C02_inline_recursion_bounded : forall cfg fuel st, cache_ok st ->
+  (N.to_nat (ic_maxnest cfg + 2 - i_level st) <= fuel)%nat -> (i_level st <= ic_maxnest cfg) ->
+  itokenize fuel cfg st <> inl OutOfFuel.
+Proof. exact inline_recursion_bounded. Qed.
+
+(* the whole parser with the default budget 2 * max_nesting + 10 *)
+Theorem C02_parse_recursion_bounded : forall m src, snd (parse (default_fuel m) m src) <> inl OutOfFuel.
+Proof. exact parse_recursion_bounded. Qed.
+
+(* non-vacuity: the budget is tight up to a constant -- with a budget below the nesting limit the
+   same parser does run out on nested input *)
+Example C02_budget_matters :
+  let m := build_md (bs "CsW") 5 in
+  snd (parse 3 m (bs "> > > > > > a")) = inl OutOfFuel /\
+  is_ok (snd (parse (default_fuel m) m (bs "> > > > > > a"))) = true.
+Proof. vm_compute. split; reflexivity. Qed.
+
+Print Assumptions C02_block_recursion_bounded.
+Print Assumptions C02_inline_recursion_bounded.
+Print Assumptions C02_parse_recursion_bounded.
